@@ -2054,6 +2054,7 @@ class FileBuilder:
             # operations from making the directory creation impossible.)
             cache_file_created_dirs = self._make_dirs(
                 os.path.dirname(cache_filename))
+            self._build_dirs.created_cache_file_dirs(cache_file_created_dirs)
 
             return_value = func(*((self,) + args), **kwargs)
             self._is_finished_build = True
